@@ -167,3 +167,384 @@ From V Require Proofs.ConstsTie.
 Theorem C12_constants_match_source : ConstsTie.secp256k1_is_source_stmt.
 Proof. exact ConstsTie.secp256k1_is_source. Qed.
 Print Assumptions C12_constants_match_source.
+
+(* ====================================================================================== *)
+(* Deepening: codec converse, wire-level "every leaf is spendable", whole-tree sibling order,
+   end-to-end tamper direction, binding of the tree.  Proofs in Proofs/TaprootCodecP.v,
+   TaprootSpendP.v, TaprootBindP.v, TaprootLift.v; model additions in Model/TaprootExt.v. *)
+From Coq Require Import Permutation.
+From V Require Import Model.TaprootExt Spec.TxWf Proofs.TaprootLift Proofs.TaprootCodecP
+  Proofs.TaprootSpendP Proofs.TaprootBindP.
+
+(* ---- (3') ControlBlock.parse / serialize / __eq__ as a codec ---- *)
+(* rejection outside the lengths 33 + 32 m, m <= 128 *)
+Theorem C12_control_block_parse_rejects_length :
+  forall (C : curve) raw,
+  ~ (exists m, (m <= 128)%nat /\ length raw = (33 + 32 * m)%nat) -> cb_parse C raw = Err.
+Proof. exact cb_parse_rejects_length. Qed.
+Print Assumptions C12_control_block_parse_rejects_length.
+
+(* acceptance exactly for those lengths when the 32 key bytes lift *)
+Theorem C12_control_block_parse_accepts_iff :
+  forall (C : curve) raw,
+  (exists cb, cb_parse C raw = Ok cb) <->
+  (exists m, (m <= 128)%nat /\ length raw = (33 + 32 * m)%nat) /\
+  exists k, parse_xonly C (firstn 32 (tl raw)) = Ok k.
+Proof. exact cb_parse_accepts_iff. Qed.
+Print Assumptions C12_control_block_parse_accepts_iff.
+
+(* whatever parse returns satisfies the hypotheses of C12_control_block_roundtrip, and its fields are
+   the slices of the input *)
+Theorem C12_control_block_parse_wf :
+  forall (C : curve) raw cb,
+  bytes_ok raw -> cb_parse C raw = Ok cb ->
+  0 <= cb_version cb <= 254 /\ cb_version cb mod 2 = 0 /\
+  (cb_parity cb = 0 \/ cb_parity cb = 1) /\
+  Forall len32 (cb_hashes cb) /\ (length (cb_hashes cb) <= 128)%nat /\
+  length raw = (33 + 32 * length (cb_hashes cb))%nat /\
+  [cb_version cb + cb_parity cb] = firstn 1 raw /\
+  xonly (cb_key cb) = firstn 32 (skipn 1 raw) /\
+  concat (cb_hashes cb) = skipn 33 raw.
+Proof. exact cb_parse_wf. Qed.
+Print Assumptions C12_control_block_parse_wf.
+
+(* the converse round trip, for every accepted length: serialize (parse raw) = raw *)
+Theorem C12_control_block_serialize_parse :
+  forall (C : curve) raw cb,
+  bytes_ok raw -> cb_parse C raw = Ok cb -> cb_serialize cb = Ok raw.
+Proof. exact cb_serialize_parse. Qed.
+Print Assumptions C12_control_block_serialize_parse.
+
+Theorem C12_control_block_parse_injective :
+  forall (C : curve) raw raw' cb,
+  bytes_ok raw -> bytes_ok raw' -> cb_parse C raw = Ok cb -> cb_parse C raw' = Ok cb -> raw = raw'.
+Proof. exact cb_parse_inj. Qed.
+Print Assumptions C12_control_block_parse_injective.
+
+(* ControlBlock.__eq__ (equality of the serialisations) on parsed control blocks is equality of the
+   wire bytes *)
+Theorem C12_control_block_eq_parsed :
+  forall (C : curve) raw raw' a b,
+  bytes_ok raw -> bytes_ok raw' -> cb_parse C raw = Ok a -> cb_parse C raw' = Ok b ->
+  cb_eqb a b = Ok (beq raw raw').
+Proof. exact cb_eqb_parsed. Qed.
+Print Assumptions C12_control_block_eq_parsed.
+
+(* "parses back identically": with the x-only lift, parse (serialize cb) succeeds, recovers every
+   field (the key as its even-y representative), serialises to the same bytes and is `==` to cb *)
+Theorem C12_control_block_roundtrip_eq :
+  forall (C : curve) cb,
+  scalar_laws C -> lift_x_ok C ->
+  valid C (cb_key cb) -> cb_key cb <> None ->
+  0 <= cb_version cb <= 254 -> cb_version cb mod 2 = 0 ->
+  (cb_parity cb = 0 \/ cb_parity cb = 1) ->
+  Forall len32 (cb_hashes cb) -> (length (cb_hashes cb) <= 128)%nat ->
+  exists raw cb',
+    cb_serialize cb = Ok raw /\ length raw = (33 + 32 * length (cb_hashes cb))%nat /\
+    cb_parse C raw = Ok cb' /\
+    cb' = {| cb_version := cb_version cb; cb_parity := cb_parity cb;
+             cb_key := evenT C (cb_key cb); cb_hashes := cb_hashes cb |} /\
+    cb_serialize cb' = Ok raw /\ cb_eqb cb' cb = Ok true.
+Proof. exact cb_roundtrip_lift. Qed.
+Print Assumptions C12_control_block_roundtrip_eq.
+
+(* ---- (4') every leaf of every tree, through the wire form ---- *)
+(* for every tree shape (induction; depth <= 128, the length limit of the control block), every leaf
+   query matching a leaf lf' with an even version: the control block the library builds serialises to
+   33 + 32 * (path length) bytes whose first byte is version + parity, parses back `==` with the same
+   version / parity / path, and the PARSED control block recomputes the merkle root and the output key *)
+Theorem C12_every_leaf_spendable_wire :
+  forall (C : curve) (sha256 : bytes -> bytes),
+  (forall x, length (sha256 x) = 32%nat) ->
+  forall t P lf lf' root Q par,
+  scalar_laws C -> lift_x_ok C -> valid C P -> P <> None ->
+  find (leaf_eqb lf) (leaves t) = Some lf' ->
+  tree_hash sha256 t = Ok root -> tweaked_key C sha256 P root = Ok Q -> parity Q = Ok par ->
+  0 <= fst lf' <= 254 -> fst lf' mod 2 = 0 -> (height t <= 128)%nat ->
+  exists cb raw cb',
+    tree_control_block C sha256 t P lf = Ok (Some cb) /\
+    cb_serialize cb = Ok raw /\
+    length raw = (33 + 32 * length (cb_hashes cb))%nat /\
+    (length (cb_hashes cb) <= height t)%nat /\
+    firstn 1 raw = [fst lf' + par] /\
+    cb_parse C raw = Ok cb' /\
+    cb_version cb' = fst lf' /\ cb_parity cb' = par /\ cb_key cb' = evenT C P /\
+    cb_hashes cb' = cb_hashes cb /\
+    cb_eqb cb' cb = Ok true /\
+    cb_merkle_root sha256 cb' (snd lf') = Ok root /\
+    cb_external_pubkey C sha256 cb' (snd lf') = Ok Q.
+Proof. exact control_block_wire. Qed.
+Print Assumptions C12_every_leaf_spendable_wire.
+
+(* ... and the commitment check of the witness-v1 script-path branch of Script.evaluate accepts the
+   witness [leaf script bytes; control block bytes], with or without an annex, against the x-only
+   output key (leaf scripts built from well-formed commands; leaf version other than 0x50) *)
+Theorem C12_honest_spend_commits :
+  forall (C : curve) (sha256 : bytes -> bytes),
+  (forall x, length (sha256 x) = 32%nat) ->
+  forall t P lf lf' root Q par cs rs,
+  scalar_laws C -> lift_x_ok C -> valid C P -> P <> None ->
+  find (leaf_eqb lf) (leaves t) = Some lf' ->
+  tree_hash sha256 t = Ok root -> tweaked_key C sha256 P root = Ok Q -> parity Q = Ok par ->
+  0 <= fst lf' <= 254 -> fst lf' mod 2 = 0 -> fst lf' <> 80 -> (height t <= 128)%nat ->
+  snd lf' = mk_script cs -> cmds_wfb cs = true -> ser_cmds cs = Ok rs ->
+  zlen rs < 9223372036854775808 ->
+  exists cb raw,
+    tree_control_block C sha256 t P lf = Ok (Some cb) /\ cb_serialize cb = Ok raw /\
+    script_path_commit_check C sha256 (xonly Q) [rs; raw] = Ok true /\
+    forall annex, script_path_commit_check C sha256 (xonly Q) [rs; raw; 80 :: annex] = Ok true.
+Proof. exact honest_spend_commits. Qed.
+Print Assumptions C12_honest_spend_commits.
+
+(* when no script of the tree kept a .raw, every leaf recomputes from its OWN script and version
+   (two leaves with one script and different versions each get their own control block) *)
+Theorem C12_every_leaf_own_script :
+  forall (C : curve) (sha256 : bytes -> bytes) t P lf root Q par,
+  (forall l, In l (leaves t) -> s_raw (snd l) = None) ->
+  In lf (leaves t) ->
+  tree_hash sha256 t = Ok root -> tweaked_key C sha256 P root = Ok Q -> parity Q = Ok par ->
+  exists cb,
+    tree_control_block C sha256 t P lf = Ok (Some cb) /\
+    cb_version cb = fst lf /\ cb_parity cb = par /\ cb_key cb = P /\
+    cb_merkle_root sha256 cb (snd lf) = Ok root /\
+    cb_external_pubkey C sha256 cb (snd lf) = Ok Q.
+Proof. exact every_leaf_own_script. Qed.
+Print Assumptions C12_every_leaf_own_script.
+
+(* WITHOUT that restriction the clause is false of the code: a leaf whose script kept a .raw
+   (Script.parse(raw=02aa): inexact parse) placed after a leaf with equal commands (Script([aa])) is
+   `==` to it, so control_block returns the path of the FIRST leaf; recomputing from the second
+   leaf's own script gives another root (or exhibits a collision).  Replayed on /repo. *)
+Theorem C12_every_leaf_own_script_refuted :
+  exists t lf, In lf (leaves t) /\
+  forall (C : curve) (sha256 : bytes -> bytes) P root Q par,
+    (forall x, length (sha256 x) = 32%nat) ->
+    tree_hash sha256 t = Ok root -> tweaked_key C sha256 P root = Ok Q -> parity Q = Ok par ->
+    exists cb root',
+      tree_control_block C sha256 t P lf = Ok (Some cb) /\
+      cb_merkle_root sha256 cb (snd lf) = Ok root' /\
+      (root' <> root \/ collision sha256).
+Proof. exact every_leaf_own_script_refuted. Qed.
+Print Assumptions C12_every_leaf_own_script_refuted.
+
+(* ---- (2') sibling order, whole trees ---- *)
+(* any selection of branches swapped (pre-order bit list), and the full mirror image *)
+Theorem C12_sibling_swaps_any_selection :
+  forall (sha256 : bytes -> bytes) t bits,
+  tree_hash sha256 (fst (swap_sel bits t)) = tree_hash sha256 t /\
+  tree_hash sha256 (mirror t) = tree_hash sha256 t.
+Proof.
+  intros sha256 t bits. split; symmetry; apply tree_hash_sib_equiv;
+    [apply swap_sel_equiv | apply mirror_equiv].
+Qed.
+Print Assumptions C12_sibling_swaps_any_selection.
+
+(* rearranging siblings permutes the leaves, keeps the root, and the control block the rearranged
+   tree builds for any leaf recomputes the SAME root and output key *)
+Theorem C12_sibling_control_block :
+  forall (C : curve) (sha256 : bytes -> bytes) t t' P lf root Q par,
+  sib_equiv t t' -> In lf (leaves t) ->
+  tree_hash sha256 t = Ok root -> tweaked_key C sha256 P root = Ok Q -> parity Q = Ok par ->
+  Permutation (leaves t) (leaves t') /\
+  tree_hash sha256 t' = Ok root /\
+  exists lf'' cb',
+    find (leaf_eqb lf) (leaves t') = Some lf'' /\ leaf_eqb lf lf'' = true /\
+    tree_control_block C sha256 t' P lf = Ok (Some cb') /\
+    cb_version cb' = fst lf /\ cb_parity cb' = par /\
+    cb_merkle_root sha256 cb' (snd lf'') = Ok root /\
+    cb_external_pubkey C sha256 cb' (snd lf'') = Ok Q.
+Proof.
+  intros C sha256 t t' P lf root Q par Hse Hin Hh HQ Hpar.
+  split; [exact (sib_equiv_leaves t t' Hse)|].
+  exact (sib_equiv_control_block C sha256 t t' P lf root Q par Hse Hin Hh HQ Hpar).
+Qed.
+Print Assumptions C12_sibling_control_block.
+
+(* TapBranch.combine is total on non-empty lists and keeps the leaves in order *)
+Theorem C12_combine_total :
+  forall nodes, nodes <> [] ->
+  exists t, combine_nodes (length nodes) nodes = Ok t /\ leaves t = flat_map leaves nodes.
+Proof. exact combine_total. Qed.
+Print Assumptions C12_combine_total.
+
+(* ---- (5') the tamper direction, end to end ---- *)
+(* x_coincidence C sha256 k k' root root': two DIFFERENT TapTweak hashes whose output keys have the
+   same x coordinate (the algebraic coincidence, explicit) *)
+
+(* every single-byte alteration of a serialized control block that parse accepts, used with the same
+   leaf script: if both reproduce their recorded parity and the same x-only key, then collision or
+   coincidence *)
+Theorem C12_tamper_control_block_byte :
+  forall (C : curve) (sha256 : bytes -> bytes),
+  (forall x, length (sha256 x) = 32%nat) ->
+  forall raw raw' cb cb' sc T T',
+  bytes_ok raw -> bytes_ok raw' ->
+  cb_parse C raw = Ok cb -> cb_parse C raw' = Ok cb' -> one_byte_differs raw raw' ->
+  cb_external_pubkey C sha256 cb sc = Ok T -> parity T = Ok (cb_parity cb) ->
+  cb_external_pubkey C sha256 cb' sc = Ok T' -> parity T' = Ok (cb_parity cb') ->
+  xonly T = xonly T' ->
+  collision sha256 \/
+  exists root root',
+    cb_merkle_root sha256 cb sc = Ok root /\ cb_merkle_root sha256 cb' sc = Ok root' /\
+    x_coincidence C sha256 (cb_key cb) (cb_key cb') root root'.
+Proof. exact tamper_cb_byte. Qed.
+Print Assumptions C12_tamper_control_block_byte.
+
+(* the same at the level of the commitment check of Script.evaluate: the control-block item *)
+Theorem C12_commit_tamper_control_block :
+  forall (C : curve) (sha256 : bytes -> bytes),
+  (forall x, length (sha256 x) = 32%nat) ->
+  forall q rs raw raw',
+  bytes_ok raw -> bytes_ok raw' -> one_byte_differs raw raw' ->
+  script_path_commit_check C sha256 q [rs; raw] = Ok true ->
+  script_path_commit_check C sha256 q [rs; raw'] = Ok true ->
+  collision sha256 \/
+  exists cb cb' sc root root',
+    cb_parse C raw = Ok cb /\ cb_parse C raw' = Ok cb' /\ tap_script_of rs = Ok sc /\
+    cb_merkle_root sha256 cb sc = Ok root /\ cb_merkle_root sha256 cb' sc = Ok root' /\
+    x_coincidence C sha256 (cb_key cb) (cb_key cb') root root'.
+Proof. exact commit_tamper_control_block. Qed.
+Print Assumptions C12_commit_tamper_control_block.
+
+(* ... and the leaf-script item (altered in any way): both witness scripts re-serialise to the same
+   bytes (the leaf hash is taken over Script.parse(...).raw_serialize(): known finding
+   K-C12-leafhash-reserialised), or collision, or coincidence *)
+Theorem C12_commit_tamper_leaf_script :
+  forall (C : curve) (sha256 : bytes -> bytes),
+  (forall x, length (sha256 x) = 32%nat) ->
+  forall q rs rs' raw,
+  script_path_commit_check C sha256 q [rs; raw] = Ok true ->
+  script_path_commit_check C sha256 q [rs'; raw] = Ok true ->
+  exists cb sc sc',
+    cb_parse C raw = Ok cb /\ tap_script_of rs = Ok sc /\ tap_script_of rs' = Ok sc' /\
+    (raw_serialize sc = raw_serialize sc' \/
+     collision sha256 \/
+     exists root root',
+       cb_merkle_root sha256 cb sc = Ok root /\ cb_merkle_root sha256 cb sc' = Ok root' /\
+       x_coincidence C sha256 (cb_key cb) (cb_key cb) root root').
+Proof. exact commit_tamper_leaf_script. Qed.
+Print Assumptions C12_commit_tamper_leaf_script.
+
+(* the honest script item is its own re-serialisation, so against an honest witness the first
+   disjunct reads "the altered script re-serialises to the committed bytes" *)
+Theorem C12_honest_script_canonical :
+  forall cs rs,
+  cmds_wfb cs = true -> ser_cmds cs = Ok rs -> zlen rs < 9223372036854775808 ->
+  exists sc, tap_script_of rs = Ok sc /\ raw_serialize sc = Ok rs.
+Proof. exact honest_script_canonical. Qed.
+Print Assumptions C12_honest_script_canonical.
+
+(* that disjunct is inhabited (the known finding, in the model) *)
+Theorem C12_reserialise_coincidence :
+  exists rs rs' sc sc', rs <> rs' /\ tap_script_of rs = Ok sc /\ tap_script_of rs' = Ok sc' /\
+                        raw_serialize sc = raw_serialize sc'.
+Proof. exact reserialise_coincidence. Qed.
+Print Assumptions C12_reserialise_coincidence.
+
+(* the TapLeaf preimage determines the leaf version and the raw script bytes *)
+Theorem C12_leaf_preimage_injective :
+  forall v sc v' sc' pre,
+  leaf_preimage v sc = Ok pre -> leaf_preimage v' sc' = Ok pre ->
+  v = v' /\ exists r, raw_serialize sc = Ok r /\ raw_serialize sc' = Ok r.
+Proof. exact leaf_preimage_inj. Qed.
+Print Assumptions C12_leaf_preimage_injective.
+
+(* ---- the output key commits to the script tree ---- *)
+(* tree_sim: the same tree up to sibling order and up to the hashed serialisation of the leaves *)
+Theorem C12_merkle_root_binds_tree :
+  forall (sha256 : bytes -> bytes),
+  (forall x, length (sha256 x) = 32%nat) ->
+  forall t t' h, tree_hash sha256 t = Ok h -> tree_hash sha256 t' = Ok h ->
+  tree_sim t t' \/ collision sha256.
+Proof. exact tree_hash_binding. Qed.
+Print Assumptions C12_merkle_root_binds_tree.
+
+Theorem C12_tree_sim_same_root :
+  forall (sha256 : bytes -> bytes) t t', tree_sim t t' ->
+  exists h, tree_hash sha256 t = Ok h /\ tree_hash sha256 t' = Ok h.
+Proof. exact tree_sim_hash. Qed.
+Print Assumptions C12_tree_sim_same_root.
+
+Theorem C12_output_key_binds_tree :
+  forall (C : curve) (sha256 : bytes -> bytes),
+  (forall x, length (sha256 x) = 32%nat) ->
+  forall t t' P P' Q Q',
+  tree_external_pubkey C sha256 t P = Ok Q -> tree_external_pubkey C sha256 t' P' = Ok Q' ->
+  xonly Q = xonly Q' ->
+  (tree_sim t t' /\ xonly P = xonly P') \/ collision sha256 \/
+  exists root root', tree_hash sha256 t = Ok root /\ tree_hash sha256 t' = Ok root' /\
+                     x_coincidence C sha256 P P' root root'.
+Proof. exact output_key_binding. Qed.
+Print Assumptions C12_output_key_binds_tree.
+
+(* ---- non-vacuity on the toy curve (31 points) with a 32-byte toy "hash" ---- *)
+(* toy_sha (Proofs/TaprootToy.v): to_be 32 of a 20-bit polynomial checksum of the input *)
+From V Require Import Proofs.TaprootToy.
+
+Definition toy_s (d : Z) : script := mk_script [Push [d; d + 1]; Op 117; Op 81].
+Definition toy_tree : taptree :=
+  Branch (Leaf 192 (toy_s 1)) (Branch (Leaf 192 (toy_s 2)) (Leaf 194 (toy_s 2))).
+Definition toy_P : point := Some (35, 21).   (* pubkey toy 3: odd y *)
+Definition toy_root : bytes := to_be 32 944418.
+
+(* all hypotheses of C12_honest_spend_commits hold for the third leaf (the script of the second leaf
+   under another leaf version) of a three-leaf tree under an odd internal key *)
+Example C12_toy_honest_spend :
+  exists cb raw Q,
+    tree_control_block toy toy_sha toy_tree toy_P (194, toy_s 2) = Ok (Some cb) /\
+    cb_version cb = 194 /\ length (cb_hashes cb) = 2%nat /\
+    cb_serialize cb = Ok raw /\ length raw = 97%nat /\
+    tree_external_pubkey toy toy_sha toy_tree toy_P = Ok Q /\
+    script_path_commit_check toy toy_sha (xonly Q) [[2; 2; 3; 117; 81]; raw] = Ok true /\
+    script_path_commit_check toy toy_sha (xonly Q) [[2; 2; 3; 117; 81]; raw; [80; 1]] = Ok true.
+Proof.
+  destruct (C12_honest_spend_commits toy toy_sha toy_sha_len toy_tree toy_P (194, toy_s 2) (194, toy_s 2)
+              toy_root (Some (7, 7)) 1 [Push [2; 3]; Op 117; Op 81] [2; 2; 3; 117; 81]
+              toy_scalar_laws toy_lift_x_ok) as (cb & raw & Hcb & Hs & Hc & Ha).
+  - vm_compute. repeat split; reflexivity.
+  - discriminate.
+  - vm_compute; reflexivity.
+  - vm_compute; reflexivity.
+  - vm_compute; reflexivity.
+  - reflexivity.
+  - cbn [fst]; lia.
+  - reflexivity.
+  - cbn [fst]; lia.
+  - cbn; lia.
+  - reflexivity.
+  - reflexivity.
+  - reflexivity.
+  - vm_compute; reflexivity.
+  - assert (Hcb' := Hcb). vm_compute in Hcb'. injection Hcb' as Ecb.
+    exists cb, raw, (Some (7, 7)). split; [exact Hcb|]. split; [now rewrite <- Ecb|]. split; [now rewrite <- Ecb|].
+    split; [exact Hs|]. split.
+    { rewrite <- Ecb in Hs. vm_compute in Hs. injection Hs as <-. reflexivity. }
+    split; [vm_compute; reflexivity|]. split; [exact Hc | exact (Ha [1])].
+Qed.
+
+(* the same witness with one bit of the control block flipped, at each of its 97 bytes: rejected at
+   94 positions (byte 0 and every key byte among them); at three path-hash bytes it is ACCEPTED —
+   on a 31-point group with a 20-bit "hash" the collision / coincidence disjunct of
+   C12_commit_tamper_control_block is real, and cannot be dropped from the statement *)
+Definition toy_raw : bytes :=
+  match tree_control_block toy toy_sha toy_tree toy_P (194, toy_s 2) with
+  | Ok (Some cb) => match cb_serialize cb with Ok r => r | Err => [] end
+  | _ => []
+  end.
+Example C12_toy_tamper :
+  filter (fun i =>
+    match script_path_commit_check toy toy_sha (xonly (Some (7, 7)))
+            [[2; 2; 3; 117; 81]; firstn i toy_raw ++ Z.lxor (nth i toy_raw 0) 1 :: skipn (S i) toy_raw] with
+    | Ok true => true | _ => false end) (seq 0 (length toy_raw)) = [56; 70; 73]%nat.
+Proof. vm_compute. reflexivity. Qed.
+
+(* codec on the toy curve: 33 + 32 m accepted (m = 0, 1), other lengths rejected, converse round trip *)
+Definition toy_cb_raw : bytes := 193 :: to_be 32 35 ++ repeatz 7 32.
+Definition toy_cb : control_block :=
+  {| cb_version := 192; cb_parity := 1; cb_key := Some (35, 22); cb_hashes := [repeatz 7 32] |}.
+Example C12_toy_codec :
+  cb_parse toy toy_cb_raw = Ok toy_cb /\ cb_serialize toy_cb = Ok toy_cb_raw /\
+  cb_parse toy (toy_cb_raw ++ [0]) = Err /\ cb_parse toy (firstn 64 toy_cb_raw) = Err /\
+  cb_parse toy (firstn 33 toy_cb_raw) =
+    Ok {| cb_version := 192; cb_parity := 1; cb_key := Some (35, 22); cb_hashes := [] |}.
+Proof. repeat split; vm_compute; reflexivity. Qed.
